@@ -82,6 +82,26 @@ func (r *electrumTxWatcher) StartWatchingTxs() error {
 		}
 	}
 
+	// The observers' callbacks run whole swap state machine steps (the claim
+	// payment loop can block in the lightning node for minutes). They are
+	// notified from a goroutine of their own, so that this watcher keeps
+	// reading headers meanwhile: GetBlockHeight, which the payment loop asks
+	// before every attempt, must not answer a tip that is frozen for as long
+	// as a callback runs. Only the newest height is kept for the notifier.
+	notify := make(chan electrum.BlockHeight, 1)
+	go func() {
+		for {
+			select {
+			case <-ctx.Done():
+				return
+			case height := <-notify:
+				if err := r.subscriber.Update(ctx, height); err != nil {
+					log.Infof("Error notifying tx observers: %v", err)
+				}
+			}
+		}
+	}()
+
 	go func() {
 		defer r.resubscribeTicker.Stop()
 		for {
@@ -103,10 +123,15 @@ func (r *electrumTxWatcher) StartWatchingTxs() error {
 					continue
 				}
 				log.Debugf("New block received. block height:%d", height)
-				err = r.subscriber.Update(ctx, height)
-				if err != nil {
-					log.Infof("Error notifying tx observers: %v", err)
-					continue
+				// This goroutine is the only sender: drop a height the
+				// notifier has not taken yet, the newer one supersedes it.
+				select {
+				case <-notify:
+				default:
+				}
+				select {
+				case notify <- height:
+				default:
 				}
 			case <-r.resubscribeTicker.C:
 				// The old subscription topic will remain in the memory
